@@ -3996,7 +3996,8 @@ impl<'a> Parser<'a> {
         self.check_depth()?;
         let start = self.current.span;
         let mut ty = self.parse_primary_type_base()?;
-        while self.check(&TokenKind::LBracket) {
+        // `T[]` / `T[K]`: no line break before the bracket (a `[` on the next line starts a statement)
+        while self.check(&TokenKind::LBracket) && !self.lexer.had_newline_before() {
             self.chain_link()?;
             self.advance();
             if self.match_token(&TokenKind::RBracket) {
